@@ -155,7 +155,7 @@ func main() {
 		"recursion refused) on a real FetchingProvider over sqlite; each call has its own fetch script over real signed " +
 		"TRC successions of length <= 8 with at most two faults at random steps (missing, corrupted signatures, other " +
 		"voters, wrong serial, other base, base TRC, other ISD, valid fork); load: LoadTRCs on a temp dir with valid, " +
-		"PEM, garbage, future, duplicate and conflicting files; non-trivial = history with at least one fetch, every load case"
+		"PEM (current and future-dated, wrong block type), garbage, future, duplicate and conflicting files; non-trivial = history with at least one fetch, every load case"
 	rng := vgen.NewRand(run.Seed)
 
 	nh := run.Count(220, 4000)
@@ -357,7 +357,7 @@ func loadCase(run *vgen.Run, r *vgen.Rand) {
 	type fd struct{ kind, serial int }
 	files := make([]fd, nfiles)
 	for j := range files {
-		files[j] = fd{kind: []int{0, 0, 0, 1, 2, 3, 3, 4, 5}[r.Intn(9)], serial: r.Range(1, 5)}
+		files[j] = fd{kind: []int{0, 0, 0, 1, 1, 2, 3, 3, 4, 5, 6, 6, 7}[r.Intn(13)], serial: r.Range(1, 5)}
 	}
 	k0 := r.Range(0, 2)
 	if !run.Want() {
@@ -407,6 +407,12 @@ func loadCase(run *vgen.Run, r *vgen.Rand) {
 			t := u.mk(va, 1, 1, uint64(f.serial), h(vgen.Pick(r, 2, 24, 100)), h(500), time.Hour, "future", false)
 			raw = t.Raw
 			term = "(TrustStore.FTRC " + u.term(t) + ")"
+		case 6: // validity starts in the future, PEM encoded
+			t := u.mk(va, 1, 1, uint64(f.serial), h(vgen.Pick(r, 2, 24, 100)), h(500), time.Hour, "futurepem", false)
+			raw = pem.EncodeToMemory(&pem.Block{Type: "TRC", Bytes: t.Raw})
+			term = "(TrustStore.FTRC " + u.term(t) + ")"
+		case 7: // PEM block of another type: not a TRC file
+			raw = pem.EncodeToMemory(&pem.Block{Type: "TRC PAYLOAD", Bytes: main[f.serial].Raw})
 		case 4: // other payload under the same id
 			t := u.mk(va, 1, 1, uint64(f.serial), h(-50), h(400), time.Hour, "conflict", false)
 			raw = t.Raw
